@@ -160,6 +160,41 @@ pub fn gen_script(w: &mut World, p: &Profile, stream: bool, never: bool, err_pct
     s
 }
 
+/// a small inner combinator producing a future (or a stream); `deeper` > 0 lets one of its own children be a
+/// combinator again
+fn gen_inner(w: &mut World, want_stream: bool, deeper: u32) -> Option<Shape> {
+    let inner_fams: Vec<Fam> = if want_stream {
+        let mut v = vec![Fam::Merge, Fam::Zip, Fam::Chain, Fam::WaitS];
+        if cfg!(feature = "fc-alloc") {
+            v.extend([Fam::FGroup, Fam::SGroup]);
+        }
+        v
+    } else {
+        vec![Fam::Join, Fam::TryJoin, Fam::Race, Fam::RaceOk, Fam::WaitF]
+    };
+    let ifam = pick(w, &inner_fams);
+    let icont = match ifam {
+        Fam::FGroup | Fam::SGroup => Cont::Group,
+        Fam::WaitF | Fam::WaitS => Cont::Ext,
+        _ => pick(w, &[Cont::Tuple, Cont::Array, Cont::Vec]),
+    };
+    let inn = match icont {
+        Cont::Ext => 2,
+        _ => 1 + w.below(3),
+    };
+    if !supported(ifam, icont, inn) {
+        return None;
+    }
+    let mut s = Shape::flat(ifam, icont, inn);
+    if deeper > 0 {
+        let j = w.below(inn);
+        if let Some(inner) = gen_inner(w, kid_is_stream(ifam, j), deeper - 1) {
+            s.kids[j] = ShapeKid::Node(inner);
+        }
+    }
+    Some(s)
+}
+
 fn gen_shape(w: &mut World, p: &Profile) -> Shape {
     if let Some((fam, cont, n)) = p.force_shape {
         return Shape::flat(fam, cont, n);
@@ -180,6 +215,8 @@ fn gen_shape(w: &mut World, p: &Profile) -> Shape {
                 // which makes such executions thousands of times heavier than the rest without adding anything)
                 if !p.small && w.chance(2) && (cfg!(feature = "fc-std") || !fam.stream_kids()) {
                     257
+                } else if !p.small && w.chance(4) {
+                    pick(w, &ARRAY_MID_LENS)
                 } else {
                     pick(w, &ARRAY_LENS[..8])
                 }
@@ -200,33 +237,15 @@ fn gen_shape(w: &mut World, p: &Profile) -> Shape {
             continue;
         }
         let mut shape = Shape::flat(fam, cont, n);
-        // one level of nesting: replace some children by small inner combinators of a matching kind
+        // nesting: replace some children by small inner combinators of a matching kind (one level; in a fifth of
+        // the nested cases one of the inner combinator's children is itself a combinator, i.e. two levels)
         if n > 0 && n <= 6 && w.chance(p.nested_pct) {
             let k = 1 + w.below(n.min(2));
+            let deep = !p.small && w.chance(20);
             for _ in 0..k {
                 let i = w.below(n);
-                let want_stream = kid_is_stream(fam, i);
-                let inner_fams: Vec<Fam> = if want_stream {
-                    let mut v = vec![Fam::Merge, Fam::Zip, Fam::Chain, Fam::WaitS];
-                    if cfg!(feature = "fc-alloc") {
-                        v.extend([Fam::FGroup, Fam::SGroup]);
-                    }
-                    v
-                } else {
-                    vec![Fam::Join, Fam::TryJoin, Fam::Race, Fam::RaceOk, Fam::WaitF]
-                };
-                let ifam = pick(w, &inner_fams);
-                let icont = match ifam {
-                    Fam::FGroup | Fam::SGroup => Cont::Group,
-                    Fam::WaitF | Fam::WaitS => Cont::Ext,
-                    _ => pick(w, &[Cont::Tuple, Cont::Array, Cont::Vec]),
-                };
-                let inn = match icont {
-                    Cont::Ext => 2,
-                    _ => 1 + w.below(3),
-                };
-                if supported(ifam, icont, inn) {
-                    shape.kids[i] = ShapeKid::Node(Shape::flat(ifam, icont, inn));
+                if let Some(inner) = gen_inner(w, kid_is_stream(fam, i), if deep { 1 } else { 0 }) {
+                    shape.kids[i] = ShapeKid::Node(inner);
                 }
             }
         }
